@@ -25,7 +25,7 @@ class Spec:
 
     def strategy(self, tier):
         o = {"p_failflag": 0, "p_csum": 60, "p_always": 8, "p_ifc": 5, "min_targets": 3, "p_stampif": 30,
-             "weights": {"cmd": 45, "edit": 30, "stampflag": 8, "failflag": 0, "setdo": 5, "adddo": 1, "rmdo": 1, "rmtarget": 8,
+             "weights": {"cmd": 45, "edit": 30, "stampflag": 8, "failflag": 0, "setdo": 5, "adddo": 1, "rmdo": 1, "rmtarget": 8, "crash": 6,
                          "redo": 8, "mkpath": 1, "rmpath": 1, "ext": 2, "touch": 3}}
         # second family: tiny projects, small operation alphabet (command / edit-or-revert one of two sources /
         # toggle "does this rule call redo-stamp") -- long enough histories over few objects reach multi-step shapes
